@@ -50,13 +50,14 @@ type hStray struct {
 }
 
 type hHistory struct {
-	Ctx      int        `json:"ctx"`
-	Bridges  []vBridge  `json:"bridges"`
-	Proxies  []*hProxy  `json:"proxies"`
-	Clients  []*hClient `json:"clients"`
-	Strays   []*hStray  `json:"stray_answers"`
-	Open     int        `json:"operations_still_open"`
-	LongSids int        `json:"common_sid_prefix_bytes,omitempty"`
+	SharedAMPToken int        `json:"amp_clients_sharing_one_cache_breaking_token,omitempty"`
+	Ctx            int        `json:"ctx"`
+	Bridges        []vBridge  `json:"bridges"`
+	Proxies        []*hProxy  `json:"proxies"`
+	Clients        []*hClient `json:"clients"`
+	Strays         []*hStray  `json:"stray_answers"`
+	Open           int        `json:"operations_still_open"`
+	LongSids       int        `json:"common_sid_prefix_bytes,omitempty"`
 }
 
 var natChoices = []string{"", NATUnknown, NATRestricted, NATUnrestricted, NATUnrestricted, NATRestricted}
@@ -153,6 +154,20 @@ func genHistory(r *vlib.Rand, ctxID int) *hHistory {
 	ns := r.Intn(3)
 	for k := 0; k < ns; k++ {
 		h.Strays = append(h.Strays, &hStray{Sid: fmt.Sprintf("c%d-unknown-%x", ctxID, r.Uint64()), Tok: fmt.Sprintf(`{"type":"answer","sdp":"STRAY-c%d-%d-%x"}`, ctxID, k, r.Uint64()), StartMs: r.Intn(900)})
+	}
+	// AMP clients of one history that present the same cache-breaking token
+	if r.Chance(1, 2) {
+		shared := r.PickString([]string{"", "AAAAAAAAAAAA", "x", "pad/pad"})
+		n := 0
+		for _, c := range h.Clients {
+			if c.Spec.Transport == "amp" {
+				c.Spec.Pad, c.Spec.FixedPad = shared, true
+				n++
+			}
+		}
+		if n >= 2 {
+			h.SharedAMPToken = n
+		}
 	}
 	return h
 }
@@ -792,6 +807,9 @@ func runC02C03(t *testing.T, prop string) {
 			res.Obs("histories_with_overlapping_matches", 1)
 		}
 		res.Obs("histories", 1)
+		if o.h.SharedAMPToken > 0 {
+			res.Obs("histories_with_amp_clients_sharing_a_token", 1)
+		}
 		if o.h.LongSids > 0 {
 			res.Obs("histories_with_long_session_ids_sharing_a_prefix", 1)
 		}
